@@ -11,6 +11,47 @@ STUB_LAKE = ["storage.Engine = simdisk (in-memory; objstore model with atomic pu
              "clock (synctest bubble)", "KSUID randomness (seeded)", "goroutine choice at storage/hook points (seeded scheduler)"]
 
 PROPS = {
+    "C11": dict(
+        engine="streamsim", level="exploration", gomaxprocs=1, hang_is_violation=True,
+        env={"GODEBUG": "asyncpreemptoff=1", "VERIF_WATCHDOG_S": "60"},
+        budget_s=dict(quick=45, thorough=1500),
+        rule=("one run = a valid encoding (zng with drawn options, zson, zjson, vng, json, csv, tsv, zeek) of 1..40 generated values, then one damage drawn from the fault stream (none, truncation at any offset, "
+              "1..4 bit flips biased to the first 48 bytes, a splice of three slices, 1..6 inserted bytes), optionally a read error injected at an offset and/or cancellation after k values; read through "
+              "anyio with the format given or auto-detected, threads 1/2/4, readmax 64Ki/1Mi/default, validation on/off, 1..n-byte fragments; zng decode workers scheduled by the simulator. Oracle: the consumer "
+              "gets values or an error and Close returns; no panic (a panic on a reader goroutine kills the worker process and is reported through the case file), no deadlock, no goroutine left blocked "
+              "(synctest), total allocation <= 512 MiB, <= 200000 values, and with validation on every zng/vng value passes the harness's own structural walk. A worker that makes no progress for 60 s "
+              "is reported as a hang. Non-trivial = some damage or fault was applied; distinct = distinct hash of all draws."),
+        real=REAL_STREAM + ["zio/anyio auto-detection", "csvio, jsonio, zeekio, zjsonio, zsonio, vngio readers"], stub=STUB_STREAM,
+        assumptions=["only byte readers are covered; arbitrary query text into the compiler is a pure function of its input (no stream, schedule or fault) and is not claimed",
+                     "mutation is seeded, not coverage-guided (that half of the quantifier is fuzzing)",
+                     "the structural walk checks container framing, field counts, union tags and map parity, not leaf values"],
+    ),
+    "C04": dict(
+        engine="streamsim", level="exploration", gomaxprocs=1, env={"GODEBUG": "asyncpreemptoff=1"},
+        budget_s=dict(quick=45, thorough=1500),
+        rule=("one run = 1..60 generated values (records over a small field-name and string alphabet, nested records inside arrays/maps/unions, named types, type values) rendered as ZSON, ZJSON, VNG "
+              "and ZNG (compression, frame threshold 1..default, end-of-stream markers, reader threads 1/2/3/8, read size, validation, 1..n-byte fragments drawn) and one program from a grammar over "
+              "keyword/glob/regexp searches, field==literal, literal in field, is(), and/or/not, typeof/typeunder/nameof/fields/len/kind, cut, count() by <type function>; each encoding is run through "
+              "runtime.CompileQuery and compared with the ZSON run (sequence, or multiset for aggregations; error vs no error). Encodings that do not reproduce the values themselves (codec round trip) "
+              "are skipped for that run and counted. The multi-thread ZNG scanner's parser and workers are scheduled by the simulator. Non-trivial = at least one other encoding compared and a "
+              "non-empty reference result; distinct = distinct hash of all draws."),
+        real=REAL_STREAM + ["compiler, optimizer (filter push-down into the scanner), kernel buffer filter, sam runtime"], stub=STUB_STREAM,
+        assumptions=["the ZSON rendering of the generated values is the reference input; a format that does not round-trip a value set is excluded for that run (that is C01/C02/C03's subject)",
+                     "programs outside the grammar are not covered"],
+    ),
+    "C01": dict(
+        engine="streamsim", level="exploration", gomaxprocs=1, env={"GODEBUG": "asyncpreemptoff=1"},
+        budget_s=dict(quick=45, thorough=1500),
+        rule=("one run = 1..4 independently written ZNG streams (own writer, own type context, compression on/off, frame threshold 1..2^20 biased small, end-of-stream markers every 1..15 values) "
+              "of generated values over the whole type system (depth <= 3, named types incl. re-bound names, unions incl. null unions, enums, errors, maps, sets, type values, boundary primitives), "
+              "concatenated and read back with threads in {1,2,3,4,8,16}, read size/max and validation drawn, through a reader that delivers 1..n-byte fragments, via Read or via the scanner's Pull; "
+              "with threads > 1 the parser and the decode workers park at simhook points and the seeded scheduler decides who proceeds. Oracle: same length, order, structural type signature and value bytes; "
+              "no error, no panic, no goroutine left behind. Non-trivial = at least one value and (several streams or several threads or fragmented delivery); distinct = distinct hash of all draws."),
+        real=REAL_STREAM, stub=STUB_STREAM,
+        assumptions=["GOMAXPROCS=1 and async preemption off so that arrival order at hook points is reproducible; who proceeds is the scheduler's choice",
+                     "interleavings are explored at hook-point granularity: parser before dispatching a frame, worker after taking a frame, worker before delivering its batch",
+                     "the structural signature treats union member order as part of the type (it is canonical within a context)"],
+    ),
     "C14": dict(
         engine="lakesim", level="exploration",
         budget_s=dict(quick=60, thorough=1500),
